@@ -275,7 +275,7 @@ class Gen:
                     P.rules.append(self.gen_rule(r, lower, group if rec else [], want_rec, i))
                 if rec and not made_rec:
                     P.rules.append(self.gen_rule(r, lower, group, True, i))
-                if feat.idb_facts and len(r.types) > 0 and ch.bool(0.2):
+                if feat.idb_facts and len(r.types) > 0 and ch.bool(0.3):
                     seen = set()
                     for _ in range(ch.int(1, 3)):
                         t = tuple(gen_value(ch, ty, feat) for ty in r.types)
